@@ -464,22 +464,22 @@ B3 == M(<<
         <<"continue-on-error", E("github.ref == 'x'")>>,
         <<"strategy", M(<<
            <<"fail-fast", E("github.ref == 'x'")>>,
-           <<"max-parallel", E("fromJSON('2')")>>,
+           <<"max-parallel", E("fromJSON(format('{0}', 2))")>>,
            <<"matrix", M(<<
               <<"os", E(AnyArr)>>,
               <<"ver", Q(<<S("1"), Q(<<S("2"), S("3")>>)>>)>>,
               \* nested values with an expression (type any) BEFORE literal siblings
-              <<"mix", Q(<< E("fromJSON('1')"), S("lit"), Q(<<E("fromJSON('2')"), S("n2"), S("n3")>>),
-                            M(<< <<"k", E("fromJSON('3')")>>, <<"l", S("m2")>> >>) >>)>>,
+              <<"mix", Q(<< E("fromJSON(format('{0}', 1))"), S("lit"), Q(<<E("fromJSON(format('{0}', 2))"), S("n2"), S("n3")>>),
+                            M(<< <<"k", E("fromJSON(format('{0}', 3))")>>, <<"l", S("m2")>> >>) >>)>>,
               <<"include", Q(<< E(AnyObj), M(<< <<"os", S("linux")>>, <<"extra", M(<< <<"deep", S("v")>> >>)>>,
-                                                <<"lst", Q(<<E("fromJSON('4')"), S("i2")>>)>> >>) >>)>>,
+                                                <<"lst", Q(<<E("fromJSON(format('{0}', 4))"), S("i2")>>)>> >>) >>)>>,
               <<"exclude", Q(<< E(AnyObj), M(<< <<"ver", S("1")>> >>) >>)>> >>)>> >>)>>,
         <<"container", FullContainer("node:18")>>,
         <<"services", M(<< <<"db", FullContainer("postgres:15")>>, <<"cache", S("redis:7")>>,
                            <<"dynenv", M(<< <<"image", S("memcached:1")>>, <<"env", E(AnyObj)>> >>)>> >>)>>,
         <<"steps", Q(<<
            M(<< <<"run", S("echo test")>>, <<"env", E(AnyObj)>>, <<"continue-on-error", E("github.ref == 'x'")>>,
-                <<"timeout-minutes", E("fromJSON('3')")>>, <<"if", E("github.ref == 'x'")>> >>),
+                <<"timeout-minutes", E("fromJSON(format('{0}', 3))")>>, <<"if", E("github.ref == 'x'")>> >>),
            M(<< <<"uses", S("actions/setup-node@v4")>>, <<"id", S("node")>> >>) >>)>> >>)>>,
      <<"other", M(<<
         <<"runs-on", M(<< <<"labels", S("ubuntu-latest")>> >>)>>,
